@@ -310,6 +310,7 @@ ZipStep(t) ==
 
 \* resolveEntity fails before any call: unknown type, or no usable resolver
 EntityFail(i) ==
+  /\ i \in Idx
   /\ est[i] = "ready"
   /\ (T(i) \notin Types \/ FirstUsable(K(i)) = 0)
   /\ errs' = errs + 1
@@ -320,12 +321,14 @@ TheRes(i) == Res(T(i))[FirstUsable(K(i))]
 
 \* ec.resolvers.Entity().FindXByY(ctx, keys...) is entered
 EntityCall(i) ==
+  /\ i \in Idx
   /\ est[i] = "ready"
   /\ T(i) \in Types /\ FirstUsable(K(i)) # 0
   /\ est' = [est EXCEPT ![i] = "called"]
   /\ UNCHANGED <<reps, out, bout, pc, gst, gq, gres, gz, list, errs, recs, order>>
 
 EntityReturn(i) ==
+  /\ i \in Idx
   /\ est[i] = "called"
   /\ LET r == TheRes(i) IN
      /\ order' = Append(order, [r |-> r.n, i |-> KeyIdx(r, K(i), i)])
@@ -353,10 +356,19 @@ Finish ==
   /\ pc' = "done"
   /\ UNCHANGED <<reps, out, bout, gst, gq, gres, gz, est, list, errs, recs, order>>
 
+\* (one disjunct per action and constant quantifier bounds, so that TLC's -coverage reports every
+\* action by name; the driver requires each of them to have been taken)
 Next ==
   \/ Build \/ Finish
-  \/ \E t \in AllT : GroupStart(t) \/ BatchNext(t) \/ BatchCall(t) \/ BatchReturn(t) \/ ZipStep(t) \/ GroupDone(t)
-  \/ \E i \in Idx : EntityFail(i) \/ EntityCall(i) \/ EntityReturn(i)
+  \/ \E t \in AllT : GroupStart(t)
+  \/ \E t \in AllT : BatchNext(t)
+  \/ \E t \in AllT : BatchCall(t)
+  \/ \E t \in AllT : BatchReturn(t)
+  \/ \E t \in AllT : ZipStep(t)
+  \/ \E t \in AllT : GroupDone(t)
+  \/ \E i \in 1..MaxLen : EntityFail(i)
+  \/ \E i \in 1..MaxLen : EntityCall(i)
+  \/ \E i \in 1..MaxLen : EntityReturn(i)
 
 Spec == Init /\ [][Next]_vars
 
